@@ -29,7 +29,7 @@ func TestMeasureRace(t *testing.T) {
 		for _, kind := range kinds {
 			for _, second := range seconds {
 				r := newRng(seed()+uint64(rep), uint64(9000+k))
-				p := []float64{float64(r.between(2, 20)), float64(r.between(1, 6)), []float64{0.05, 0.2, 0.5, 1}[r.intn(4)], []float64{0.05, 0.25, 1}[r.intn(3)],
+				p := []float64{float64(r.between(2, 20)), float64(r.between(1, 6)), []float64{0.05, 0.2, 0.5, 1, 0.7, 0.8, 0.9, 0.99, 0.3, 0.01}[r.intn(10)], []float64{0.05, 0.25, 1}[r.intn(3)],
 					[]float64{0.5, 0.9, 0.99}[r.intn(3)], []float64{0.001, 0.01, 0.5}[r.intn(3)]}
 				ms := [3]core.MeasurementInterface{newMeasurement(kind, p), newMeasurement(kind, p), newMeasurement(kind, p)}
 				for i, n := 0, r.between(1, 12); i < n; i++ {
